@@ -87,9 +87,9 @@ M('C03', 'month-table-feb', OT, "    __day_per_month = [31, 28, 31, 30, 31, 30, 
 M('C03', 'month-break-nonstrict', OT, "            if elapsed_seconds < sec_on_month:\n                break", "            if elapsed_seconds <= sec_on_month:\n                break", 'C03.G')
 M('C03', 'leap-on-march', OT, "            if (month == 1) and ObsTime.isLeapYear(year):", "            if (month == 2) and ObsTime.isLeapYear(year):", 'C03.G')
 M('C03', 'hour-unit', OT, "        time.hour = (int)(elapsed_seconds / 3600)\n        elapsed_seconds -= time.hour * 3600", "        time.hour = (int)(elapsed_seconds / 3600)\n        elapsed_seconds -= time.hour * 360", 'C03.Q')
-M('C03', 'toabs-min-unit', OT, "        seconds += self.min * 60\n", "        seconds += self.min * 6\n", 'C03.W')
-M('C03', 'toabs-leap-wrong-year', OT, "            if ObsTime.isLeapYear(y):\n                seconds += 86400", "            if ObsTime.isLeapYear(y + 1):\n                seconds += 86400", 'C03.W')
-M('C03', 'toabs-month-offbyone', OT, "        for m in range(1, self.month):\n            seconds += ObsTime.__day_per_month[m - 1] * 86400", "        for m in range(1, self.month):\n            seconds += ObsTime.__day_per_month[m] * 86400", 'C03.W')
+M('C03', 'toabs-min-unit', OT, "        seconds += self.min * 60\n", "        seconds += self.min * 6\n", 'C03.Y')
+M('C03', 'toabs-leap-wrong-year', OT, "            if ObsTime.isLeapYear(y):\n                seconds += 86400", "            if ObsTime.isLeapYear(y + 1):\n                seconds += 86400", 'C03.Y')
+M('C03', 'toabs-month-offbyone', OT, "        for m in range(1, self.month):\n            seconds += ObsTime.__day_per_month[m - 1] * 86400", "        for m in range(1, self.month):\n            seconds += ObsTime.__day_per_month[m] * 86400", 'C03.Y')
 M('C03', 'lt-last-link', OT, "        return self.ms < time.ms", "        return self.ms <= time.ms", 'C03.C')
 M('C03', 'eq-forgets-year', OT, "        if self.year != time.year:\n            return False\n        \n        return True", "        return True", 'C03.C')
 M('C03', 'addhour-unit', OT, "        sec = self.toAbsTime() + nb * 3600", "        sec = self.toAbsTime() + nb * 60 * 6", 'C03.A')
